@@ -144,3 +144,33 @@ Lemma fam_rewritten : forall rest, git_common (s "refs/rewritten/"%string ++ res
 Proof. family "refs/rewritten/"%string. Qed.
 Lemma fam_logs_bisect : forall rest, git_common (s "logs/refs/bisect/"%string ++ rest) = false.
 Proof. family "logs/refs/bisect/"%string. Qed.
+
+(* ------------------------------------------------------------ Worktree.Open *)
+
+(* a worktree directory with a gitdir pointer is never served from the main storage *)
+Lemma open_pointer_never_main wtroot file p admin_ok :
+  parse_dotgit file = Some p -> go_open wtroot (Some file) admin_ok <> OpenMain.
+Proof. intros H. unfold go_open. rewrite H. destruct (admin_ok _); discriminate. Qed.
+
+(* ... and when its admin directory is gone, Open fails *)
+Lemma open_gone_fails wtroot file p admin_ok :
+  parse_dotgit file = Some p -> admin_ok (resolve wtroot p) = false ->
+  go_open wtroot (Some file) admin_ok = OpenErr.
+Proof. intros H G. unfold go_open. now rewrite H, G. Qed.
+
+(* every file that starts with "gitdir: " and is at least 9 bytes long is a pointer *)
+Lemma parse_gitdir_prefix rest :
+  (1 <= List.length rest)%nat ->
+  exists p, parse_dotgit (s "gitdir: "%string ++ rest) = Some p.
+Proof.
+  intros H. unfold parse_dotgit.
+  set (data := firstn 1024 (s "gitdir: "%string ++ rest)).
+  assert (L : (9 <= List.length data)%nat).
+  { unfold data. rewrite firstn_length, app_length.
+    assert (E8 : List.length (s "gitdir: "%string) = 8%nat) by reflexivity. rewrite E8.
+    apply Nat.min_glb; lia. }
+  destruct (Nat.ltb (List.length data) 9) eqn:E; [apply Nat.ltb_lt in E; lia|].
+  assert (F : firstn 6 data = s "gitdir"%string).
+  { unfold data. destruct rest as [|r0 rest]; [cbn in H; lia|]. reflexivity. }
+  rewrite F. cbn [beqb]. eexists. reflexivity.
+Qed.
